@@ -23,8 +23,8 @@ def plan(tier, seed):
   q = tier == 'quick'
   specs = [{'shard': 'rsa-%d' % i, 'n': 10 if q else 120, 'weight': 3}
            for i in range(5)]
-  specs += [{'shard': 'ec-%d' % i, 'n': 14 if q else 160, 'weight': 5}
-            for i in range(6)]
+  specs += [{'shard': 'ec-%d' % i, 'n': 14 if q else 110, 'weight': 5,
+             'timeout': 1500 if q else 3000} for i in range(6)]
   specs += [{'shard': 'ecdsa-%d' % i, 'n': 6 if q else 60, 'weight': 6}
             for i in range(6)]
   return specs
@@ -67,6 +67,8 @@ def run_rsa(ctx, spec):
   rng = ctx.rng('rsa')
   checks = dict(paranoid.GetRSAAllChecks())
   for b in range(spec['n']):
+    if ctx.spent():
+      break
     if not ctx.want('b%d' % b):
       continue
     size = [0, 1, 2, 3][b] if b < 4 else rng.choice([1, 2, 3, 8, 50 if ctx.tier
@@ -97,6 +99,8 @@ def run_ec(ctx, spec):
   # each shard concentrates on a few curves (the 2^32 table is per curve)
   curves = rng.sample(gen.NAMED, 3)
   for b in range(spec['n']):
+    if ctx.spent():
+      break
     if not ctx.want('b%d' % b):
       continue
     size = [0, 1, 2, 3][b] if b < 4 else rng.choice([1, 2, 3, 4, 6, 10, 50 if
@@ -122,6 +126,8 @@ def run_ecdsa(ctx, spec):
   rng = ctx.rng('ecdsa')
   checks = dict(paranoid.GetECDSAAllChecks())
   for b in range(spec['n']):
+    if ctx.spent():
+      break
     if not ctx.want('b%d' % b):
       continue
     size = [0, 1, 2, 3][b] if b < 4 else rng.choice([1, 2, 3, 5, 9, 16])
